@@ -5,14 +5,21 @@
 // buf's source-info mode, plus the well-known-type files they import; or hand-built
 // descriptors with arbitrary options / packages / source-info lists) and one managed config
 // (built through bufconfig's exported constructors, or rendered as buf.gen.yaml v2 / v1 text
-// and parsed through bufconfig's reader).  bufimagemodify.Modify runs on the real image; the
-// descriptors before/after are diffed field by field with a proto reflection walk.  The set
-// of changed (file, option) pairs with their new values and the removed source-info
-// locations form the implementation's answer, compared with the Lean model's prediction.
+// and parsed through bufconfig's reader).  bufimagemodify.Modify runs on the real image.
+//
+// The model receives the COMPLETE content of every file: every FileOptions / FieldOptions
+// entry by field number (the governed ones typed, every other one — deprecated, swift_prefix,
+// features, custom extensions, unknown fields — as a hash of its wire bytes), per field a
+// hash of the FieldDescriptorProto without options, and a hash of the serialized descriptor
+// without file options, field options and source info.  The implementation's answer is the
+// same encoding of the real descriptor AFTER Modify plus the removed source-info location
+// indices; the Lean model must predict all of it, so a change to anything managed mode does
+// not govern is a line mismatch (frame), not only an oracle finding.
 //
 // The oracle is independent of the Lean model and checks the property's own statement:
-// changes confined to governed options, WKT files byte-identical, disabled mode is the
-// identity, an option exempted by a disable rule is unchanged, bool/enum/jstype values follow
+// changes confined to governed options (reflection diff + payload / per-option hashes), WKT
+// files byte-identical, disabled mode is the identity, an option exempted by a disable rule
+// or set under ModifyPreserveExisting is unchanged, bool/enum/jstype values follow
 // last-override-else-default, removed locations are exactly those of rewritten options (plus
 // their then-empty parents), idempotence.
 package main
@@ -21,6 +28,7 @@ import (
 	"bytes"
 	"context"
 	"fmt"
+	"hash/fnv"
 	"sort"
 	"strconv"
 	"strings"
@@ -37,6 +45,7 @@ import (
 	"github.com/bufbuild/protocompile/linker"
 	"github.com/bufbuild/verifharness/internal/hx"
 	"github.com/google/uuid"
+	"google.golang.org/protobuf/encoding/protowire"
 	"google.golang.org/protobuf/proto"
 	"google.golang.org/protobuf/reflect/protodesc"
 	"google.golang.org/protobuf/reflect/protoreflect"
@@ -162,23 +171,6 @@ func pathStr(p []int32) string {
 	return strings.Join(ss, ".")
 }
 
-func optStr(p *string) string {
-	if p == nil {
-		return "~"
-	}
-	return hx.Enc(*p)
-}
-
-func optBool(p *bool) string {
-	if p == nil {
-		return "~"
-	}
-	if *p {
-		return "1"
-	}
-	return "0"
-}
-
 func strOptPtr(o *descriptorpb.FileOptions, i int) *string {
 	if o == nil {
 		return nil
@@ -219,6 +211,107 @@ func boolOptPtr(o *descriptorpb.FileOptions, i int) *bool {
 	panic("bad bool opt")
 }
 
+// hashBytes: 60-bit FNV-1a, printed in decimal (a Lean Nat on the model side).
+func hashBytes(b []byte) string {
+	h := fnv.New64a()
+	h.Write(b)
+	return strconv.FormatUint(h.Sum64()&(1<<60-1), 10)
+}
+
+// rawOptions splits the deterministic wire form of an options message into the bytes of each
+// field number (all occurrences, tag included, in wire order).  Known fields, extensions and
+// unknown fields all show up here: it is the complete content of the message.
+func rawOptions(m proto.Message) map[int32][]byte {
+	out := map[int32][]byte{}
+	b := detMarshal(m)
+	for len(b) > 0 {
+		num, _, n := protowire.ConsumeField(b)
+		if n < 0 {
+			panic(fmt.Sprintf("options message does not parse back: %v", protowire.ParseError(n)))
+		}
+		out[int32(num)] = append(out[int32(num)], b[:n]...)
+		b = b[n:]
+	}
+	return out
+}
+
+func sortedNums(m map[int32]string) []int32 {
+	var ks []int32
+	for k := range m {
+		ks = append(ks, k)
+	}
+	sort.Slice(ks, func(i, j int) bool { return ks[i] < ks[j] })
+	return ks
+}
+
+// fileOptionValues: every option present in FileOptions by field number; the twelve governed
+// ones typed (as the modifiers read them: through the generated struct), all others opaque.
+func fileOptionValues(o *descriptorpb.FileOptions) map[int32]string {
+	out := map[int32]string{}
+	if o == nil {
+		return out
+	}
+	for num, raw := range rawOptions(o) {
+		out[num] = "r" + hashBytes(raw)
+	}
+	for i, so := range strOpts {
+		if p := strOptPtr(o, i); p != nil {
+			out[so.tag] = "s" + hx.Enc(*p)
+		}
+	}
+	for i, bo := range boolOpts {
+		if p := boolOptPtr(o, i); p != nil {
+			out[bo.tag] = "b" + b01(*p)
+		}
+	}
+	if o.OptimizeFor != nil {
+		out[9] = "n" + strconv.Itoa(int(*o.OptimizeFor))
+	}
+	return out
+}
+
+func fieldOptionValues(o *descriptorpb.FieldOptions) map[int32]string {
+	out := map[int32]string{}
+	if o == nil {
+		return out
+	}
+	for num, raw := range rawOptions(o) {
+		out[num] = "r" + hashBytes(raw)
+	}
+	if o.Jstype != nil {
+		out[6] = "n" + strconv.Itoa(int(*o.Jstype))
+	}
+	return out
+}
+
+func encOptionValues(m map[int32]string, sep string) string {
+	var ss []string
+	for _, k := range sortedNums(m) {
+		ss = append(ss, strconv.Itoa(int(k))+"="+m[k])
+	}
+	return dash(strings.Join(ss, sep))
+}
+
+// fieldRest: hash of the FieldDescriptorProto without its options.
+func fieldRest(f *descriptorpb.FieldDescriptorProto) string {
+	c := proto.Clone(f).(*descriptorpb.FieldDescriptorProto)
+	c.Options = nil
+	return hashBytes(detMarshal(c))
+}
+
+// filePayload: hash of the FileDescriptorProto without file options, the options of every
+// field, and source code info: messages, enums, services, dependencies, syntax, message /
+// enum / service / method / value options ... everything managed mode must not touch.
+func filePayload(fd *descriptorpb.FileDescriptorProto) string {
+	c := proto.Clone(fd).(*descriptorpb.FileDescriptorProto)
+	c.Options = nil
+	c.SourceCodeInfo = nil
+	for _, fl := range walkFields(c) {
+		fl.desc.Options = nil
+	}
+	return hashBytes(detMarshal(c))
+}
+
 func encodeFile(f bufimage.ImageFile) string {
 	fd := f.FileDescriptorProto()
 	var parts []string
@@ -228,31 +321,14 @@ func encodeFile(f bufimage.ImageFile) string {
 	} else {
 		parts = append(parts, hx.Enc(f.FullName().String()))
 	}
-	var ss []string
-	for i := range strOpts {
-		ss = append(ss, optStr(strOptPtr(fd.Options, i)))
-	}
-	parts = append(parts, strings.Join(ss, ":"))
-	var bs []string
-	for i := range boolOpts {
-		bs = append(bs, optBool(boolOptPtr(fd.Options, i)))
-	}
-	parts = append(parts, strings.Join(bs, ":"))
-	if fd.Options == nil || fd.Options.OptimizeFor == nil {
-		parts = append(parts, "~")
-	} else {
-		parts = append(parts, strconv.Itoa(int(*fd.Options.OptimizeFor)))
-	}
+	parts = append(parts, encOptionValues(fileOptionValues(fd.Options), ";"))
 	var fs []string
 	for _, fl := range walkFields(fd) {
-		t, js := "~", "~"
+		t := "~"
 		if fl.desc.Type != nil {
 			t = strconv.Itoa(int(*fl.desc.Type))
 		}
-		if fl.desc.Options != nil && fl.desc.Options.Jstype != nil {
-			js = strconv.Itoa(int(*fl.desc.Options.Jstype))
-		}
-		fs = append(fs, hx.Enc(fl.name)+":"+pathStr(fl.path)+":"+t+":"+js)
+		fs = append(fs, hx.Enc(fl.name)+":"+pathStr(fl.path)+":"+t+":"+encOptionValues(fieldOptionValues(fl.desc.Options), "+")+":"+fieldRest(fl.desc))
 	}
 	parts = append(parts, dash(strings.Join(fs, ";")))
 	var ls []string
@@ -260,7 +336,29 @@ func encodeFile(f bufimage.ImageFile) string {
 		ls = append(ls, pathStr(l.Path))
 	}
 	parts = append(parts, dash(strings.Join(ls, ";")))
+	parts = append(parts, filePayload(fd))
 	return strings.Join(parts, ",")
+}
+
+// fileState: the complete state the model predicts after Modify (options by field number,
+// per field options + rest, payload), read from a real descriptor.
+func fileState(fd *descriptorpb.FileDescriptorProto) string {
+	var fs []string
+	for _, fl := range walkFields(fd) {
+		fs = append(fs, encOptionValues(fieldOptionValues(fl.desc.Options), "+")+":"+fieldRest(fl.desc))
+	}
+	return encOptionValues(fileOptionValues(fd.Options), ";") + "," + dash(strings.Join(fs, ";")) + "," + filePayload(fd)
+}
+
+func unionKeys(a, b map[int32]string) map[int32]bool {
+	out := map[int32]bool{}
+	for k := range a {
+		out[k] = true
+	}
+	for k := range b {
+		out[k] = true
+	}
+	return out
 }
 
 func dash(s string) string {
@@ -1448,8 +1546,42 @@ func runCase(run *hx.Run, caseID string, img *builtImage, cfg bufconfig.Generate
 		if len(rm) > 0 {
 			run.CountN("removed-locations", len(rm))
 		}
-		answers = append(answers, dash(strings.Join(items, ","))+";"+dash(strings.Join(rm, ".")))
+		// the implementation's answer is the COMPLETE state after Modify (every option of the
+		// file and of every field by field number, the per-field rest, the non-options payload)
+		// plus the removed locations; the model must predict all of it.
+		answers = append(answers, fileState(after)+","+dash(strings.Join(rm, ".")))
 		diffs[i] = fdiff
+		// frame oracle on the same encoding (independent of the model): payload, every
+		// non-governed option number, every field's rest and non-jstype options are unchanged
+		if pb, pa := filePayload(before[i]), filePayload(after); pb != pa {
+			fail("frame-payload-changed", fmt.Sprintf("file %s: the descriptor outside file options / field options / source info changed", f.Path()))
+		}
+		ob, oa := fileOptionValues(before[i].Options), fileOptionValues(after.Options)
+		governedTag := map[int32]bool{}
+		for _, tag := range governedFileOptionNames {
+			governedTag[tag] = true
+		}
+		for num := range unionKeys(ob, oa) {
+			if !governedTag[num] && ob[num] != oa[num] {
+				fail("frame-option-changed", fmt.Sprintf("file %s: FileOptions field %d is not governed by managed mode but changed", f.Path(), num))
+			}
+		}
+		afterFields := walkFields(after)
+		if len(afterFields) != len(fields) {
+			fail("frame-field-changed", fmt.Sprintf("file %s: number of fields changed", f.Path()))
+		} else {
+			for k := range fields {
+				if fieldRest(fields[k].desc) != fieldRest(afterFields[k].desc) || fields[k].name != afterFields[k].name {
+					fail("frame-field-changed", fmt.Sprintf("file %s: field %s changed outside its options", f.Path(), fields[k].name))
+				}
+				fb, fa := fieldOptionValues(fields[k].desc.Options), fieldOptionValues(afterFields[k].desc.Options)
+				for num := range unionKeys(fb, fa) {
+					if num != 6 && fb[num] != fa[num] {
+						fail("frame-field-changed", fmt.Sprintf("file %s: FieldOptions field %d of %s changed", f.Path(), num, fields[k].name))
+					}
+				}
+			}
+		}
 	}
 	run.Case(input, status+"\t"+strings.Join(answers, "|"), anyChange || modErr != nil)
 	if anyChange {
@@ -1474,6 +1606,21 @@ func runCase(run *hx.Run, caseID string, img *builtImage, cfg bufconfig.Generate
 		}
 		if !cfg.Enabled() || nChanged == 0 && modErr != nil {
 			continue
+		}
+		// ModifyPreserveExisting: an option that was set is never rewritten
+		if preserve {
+			was := fileOptionValues(before[i].Options)
+			for tag := range fdiff.fileOptChanged {
+				if _, ok := was[tag]; ok {
+					fail("preserve-existing-ignored", fmt.Sprintf("file %s: FileOptions field %d was set and ModifyPreserveExisting was given, but it was rewritten", f.Path(), tag))
+				}
+			}
+			bf := walkFields(before[i])
+			for k := range fdiff.jsChanged {
+				if o := bf[k].desc.Options; o != nil && o.Jstype != nil {
+					fail("preserve-existing-ignored", fmt.Sprintf("file %s: jstype of %s was set and ModifyPreserveExisting was given, but it was rewritten", f.Path(), bf[k].name))
+				}
+			}
 		}
 		// disable rules
 		for tag := range fdiff.fileOptChanged {
